@@ -478,6 +478,70 @@ Proof.
   apply wf_upd'; [|exact Hwf]. intros r _. apply copy_cols_id, kept_no_id. reflexivity.
 Qed.
 
+(* ---- Create from map values -------------------------------------------------------------------------- *)
+Lemma copy_cols_same_id cs ex old : r_id ex = r_id old -> r_id (copy_cols cs ex old) = r_id old.
+Proof.
+  intros H. unfold copy_cols. apply r_id_of_get. rewrite copy_cols_get.
+  destruct (mem_col CId cs); cbn; congruence.
+Qed.
+Lemma mall_cols_no_id ks : existsb (col_eqb CId) (mall_cols ks) = false.
+Proof. unfold mall_cols. induction ks as [|c ks IH]; [reflexivity|]. destruct c; cbn; auto. Qed.
+Lemma moc_apply_id now ru ks ex old : r_id ex = r_id old -> r_id (moc_apply now ru ks ex old) = r_id old.
+Proof.
+  intros H. induction ru as [|cols| |k r IH|k r IH]; cbn [moc_apply]; [reflexivity| | | |exact IH].
+  - now apply copy_cols_same_id.
+  - destruct (named ks CUat); rewrite ?with_uat_id; apply copy_cols_id, mall_cols_no_id.
+  - destruct (r_age old <? k); [exact IH|reflexivity].
+Qed.
+Lemma copy_cols_nil ex old : copy_cols [] ex old = old.
+Proof. reflexivity. Qed.
+Lemma moc_apply_idle now ru ks ex old : mrule_fires ru ks old = false -> moc_apply now ru ks ex old = old.
+Proof.
+  induction ru as [|cols| |k r IH|k r IH]; cbn [moc_apply mrule_fires]; intros H; try discriminate; auto.
+  - destruct (mall_cols ks); [rewrite H; reflexivity|discriminate].
+  - destruct (r_age old <? k); [apply IH, H|reflexivity].
+Qed.
+
+(* one map: the rows other than the map's key are untouched; a stored key gets exactly what the rule writes,
+   a fresh key the map's row; the table stays well-formed *)
+Lemma create_map_rule t now ru ks m : wf t -> r_id (map_rec m) <> 0 ->
+  let ex := map_rec m in
+  let r := create_map t now ru ks m in
+  res_err r = false /\ wf (res_tbl r)
+  /\ without (r_id ex) (res_tbl r) = without (r_id ex) t
+  /\ match lookup t (r_id ex) with
+     | None => lookup (res_tbl r) (r_id ex) = Some ex /\ res_ra r = 1
+     | Some old => lookup (res_tbl r) (r_id ex) = Some (moc_apply now ru ks ex old)
+                   /\ res_ra r = (if mrule_fires ru ks old then 1 else 0)
+     end.
+Proof.
+  intros Hwf Hnz ex r. subst r. unfold create_map. fold ex.
+  destruct (r_id ex =? 0) eqn:E; [apply Z.eqb_eq in E; contradiction|].
+  destruct (lookup t (r_id ex)) as [old|] eqn:L.
+  - destruct (lookup_some _ _ _ L) as [Hin Hid].
+    assert (Hpres : forall x, (r_id x =? r_id ex) = true -> r_id (moc_apply now ru ks ex x) = r_id x).
+    { intros x Hx. apply Z.eqb_eq in Hx. apply moc_apply_id. congruence. }
+    destruct (mrule_fires ru ks old) eqn:F; cbn [res_err res_tbl res_ra].
+    + repeat split; auto.
+      * apply wf_upd'; [exact Hpres|exact Hwf].
+      * apply without_upd_where. intros x Hx. split; [now apply Z.eqb_eq|].
+        rewrite (Hpres x Hx). now apply Z.eqb_eq.
+      * rewrite lookup_upd_where by exact Hpres. rewrite L. cbn. now rewrite Hid, Z.eqb_refl.
+    + rewrite (moc_apply_idle now ru ks ex old F). repeat split; auto.
+  - cbn [res_err res_tbl res_ra]. repeat split; auto.
+    + now apply wf_insert'.
+    + apply without_insert.
+    + now apply lookup_insert_same.
+Qed.
+
+Lemma create_map_wf t now ru ks m : wf t -> wf (res_tbl (create_map t now ru ks m)).
+Proof.
+  intros Hwf. destruct (Z.eq_dec (r_id (map_rec m)) 0) as [Hz|Hnz].
+  - unfold create_map. rewrite Hz. cbn [Z.eqb res_tbl].
+    apply wf_insert'; [exact Hwf|]. rewrite with_id_id. apply next_id_fresh.
+  - now destruct (create_map_rule t now ru ks m Hwf Hnz) as (_ & W & _).
+Qed.
+
 Lemma step_wf keep t now ch f : is_composite f = false -> chain_keeps_key ch -> wf t -> wf (res_tbl (step keep t now ch f)).
 Proof.
   intros Hc Hk Hwf. unfold step. destruct f; try discriminate Hc.
@@ -496,6 +560,12 @@ Proof.
   - unfold create_u. destruct (if r_id (fill_times now v) =? 0 then None else lookup t _) as [old|].
     + destruct (rule_fires ru old && _); [exact Hwf|now apply create_wf].
     + destruct (email_clash t _ _); [destruct (untargeted_nothing ru tgt); exact Hwf|now apply create_wf].
+  - destruct (where_on_nothing ru (map_keys ms)); [exact Hwf|].
+    cbn [res_tbl]. unfold create_maps_run. generalize (map_keys ms) as ks. intros ks.
+    assert (G : forall l t0 a, wf t0 -> wf (fst (fold_left (fun acc m => let r := create_map (fst acc) now ru ks m in
+                (res_tbl r, snd acc + res_ra r)) l (t0, a)))).
+    { induction l as [|m l IH]; intros t0 a W; cbn [fold_left fst snd]; [exact W|]. apply IH. now apply create_map_wf. }
+    now apply G.
 Qed.
 
 (* a history = steps (now, chain, finisher) applied to the evolving table *)
